@@ -246,6 +246,10 @@ func (d *Driver) Run(tasks []Task) {
 		synctest.Wait()
 		d.mu.Lock()
 		if d.live == 0 && len(d.pending) == 0 {
+			// Every task is done. Goroutines that go-git started on its own
+			// (grace-period timers, helpers) and that reach a hook from now on
+			// must not park for a grant nobody will give: they run on unscheduled.
+			d.aborting = true
 			d.mu.Unlock()
 			return
 		}
@@ -273,6 +277,10 @@ func (d *Driver) Run(tasks []Task) {
 			}
 		}
 		if d.live == 0 && len(d.pending) == 0 {
+			// Every task is done. Goroutines that go-git started on its own
+			// (grace-period timers, helpers) and that reach a hook from now on
+			// must not park for a grant nobody will give: they run on unscheduled.
+			d.aborting = true
 			d.mu.Unlock()
 			return
 		}
